@@ -178,6 +178,12 @@ func c20ParseRaces(log string) [][2]string {
 }
 
 func c20RunScenario(mode string, seed uint64, durMs, actors int) (*c20Run, error) {
+	// race1: the race build on one P (goroutines interleave only at scheduling points, which is how the SETUP/dispose
+	// and the shared-unpacker races of rtsp sessions showed up: 3 of 24 such runs, none of the parallel ones)
+	procs := ""
+	if mode == "race1" {
+		mode, procs = "race", "1"
+	}
 	bin, note, err := c20Build(mode)
 	if err != nil {
 		return nil, err
@@ -190,6 +196,9 @@ func c20RunScenario(mode string, seed uint64, durMs, actors int) (*c20Run, error
 	defer os.RemoveAll(tmp)
 	cmd := exec.Command(bin, "-seed", fmt.Sprint(seed), "-dur", fmt.Sprint(durMs), "-actors", fmt.Sprint(actors))
 	cmd.Env = append(c20GoEnv("0"), "GORACE=halt_on_error=0 log_path="+filepath.Join(tmp, "race"), "TMPDIR="+tmp)
+	if procs != "" {
+		cmd.Env = append(cmd.Env, "GOMAXPROCS="+procs)
+	}
 	var stdout, stderr bytes.Buffer
 	cmd.Stdout, cmd.Stderr = &stdout, &stderr
 	if err := cmd.Start(); err != nil {
@@ -298,10 +307,13 @@ func c20Gen(g *G) {
 		for i := 0; i < 6; i++ {
 			plans = append(plans, plan{"race", base + uint64(i), 12000, 3})
 		}
+		for i := 0; i < 4; i++ {
+			plans = append(plans, plan{"race1", base + 200 + uint64(i)*37, 5000, 2})
+		}
 		plans = append(plans, plan{"order", base + 100, 8000, 3}, plan{"order", base + 101, 8000, 2})
 	} else {
 		// 287310: the seed on which the race detector first reported the two fixed races (known_findings.json)
-		plans = append(plans, plan{"race", 287310, 5000, 2}, plan{"race", base, 5000, 2}, plan{"order", base + 100, 4000, 2})
+		plans = append(plans, plan{"race", 287310, 5000, 2}, plan{"race", base, 5000, 2}, plan{"race1", base + 200, 5000, 2}, plan{"order", base + 100, 4000, 2})
 	}
 	pairs := map[string]bool{}
 	type raceKey struct {
@@ -316,7 +328,7 @@ func c20Gen(g *G) {
 			continue
 		}
 		label := p.mode
-		if p.mode == "race" && !r.raceOn {
+		if strings.HasPrefix(p.mode, "race") && !r.raceOn {
 			label = "race-detector-unavailable"
 		}
 		g.L(label).emit(op, r.result)
